@@ -50,7 +50,10 @@ def run_patch_family(ctx, depth, pid="C08"):
         ctx.nontriv(c)
         bad = patch_monitor(o)
         if bad:
-            ctx.violations.append({"family": pid + "/patch", "input": c, "observed": o, "clauses": bad, "signature": {"kind": "patch"}})
+            big = templates.has_big_int(c["template"]) or templates.has_big_int(c["template2"])
+            ctx.count("patch:template-with-int-above-2^53" if big else "patch:violation")
+            ctx.violations.append({"family": pid + "/patch", "input": c, "observed": o, "clauses": bad,
+                                   "signature": {"kind": "patch-bigint" if big else "patch"}})
     ctx.sample({"family": "patch", "input": cases[0], "observed": outs[0]})
     ctx.families[pid + "/patch"] = {"templates": n, "tie": "monitor on the real getPatch / ApplyRevision / Match (codec level is modelled, not proved)"}
 
